@@ -497,6 +497,14 @@ func corruptFile(t *simrt.Tape, meta string, forLibrary bool) ([]byte, string, [
 			descs = append(descs, fmt.Sprintf("truncated to %d", l))
 		case 2: // header length
 			vals := []uint32{0, 4, 28, 31, 32, 33, 64, h + 32, h - 32, refformat.PageSize, refformat.PageSize + 1, 0xffffffff}
+			// header lengths that put the limit word and the table at and across the end
+			// of the data, aligned and not
+			for _, back := range []uint32{4, 5, 6, 7, 8, 12, 2052, 2053, 2056} {
+				if uint32(len(data)) > back {
+					vals = append(vals, uint32(len(data))-back)
+				}
+			}
+			vals = append(vals, h+1, h+2, h+34)
 			v := vals[t.Draw(len(vals))]
 			put32(28, v)
 			descs = append(descs, fmt.Sprintf("header length %d", v))
